@@ -103,10 +103,50 @@ def r3_removal_attribution(cx):
                  "(a pending handshake that gives up must not take the established peer with it)")
 
 
+def r5_routes_dropped_only_with_peer(cx):
+    """table.remove_claims(addr) wipes the routes and learned addresses of addr: it may be called only where the peer
+    at addr was just removed, or where the peer map was found not to contain addr (repair path)."""
+    prog = cx.prog
+    rc = A.method(prog, "ClaimTable", "remove_claims")
+    callers = [(prog.by_did[c], bb) for (c, bb, kind) in prog.cg.callers.get(rc.did, [])]
+    cx.floor("remove_claims-sites", len(callers), 4, "call sites of ClaimTable::remove_claims")
+    removes = peer_remove_sites(prog)
+    for (cb, bb) in callers:
+        cx.touch(cb)
+        t = cb.blocks[bb]["term"]
+        a = deep_root(cb, t["args"][1])
+        ok = False
+        why = ""
+        for (rb, rbi, rt) in removes:
+            if rb.did != cb.did:
+                continue
+            k = deep_root(cb, rt["args"][1])
+            if a is None or k is None or a["l"] != k["l"]:
+                continue
+            oc = success_edges(cb, rbi)
+            if oc.ok_edges and not oc.unrecognised:
+                # result tested: the claims go only on the Some edge
+                if dominated_by_edges(cb, oc.ok_edges, bb):
+                    ok, why = True, "under the Some edge of peers.remove(addr)"
+            elif cb.cfg.dominates(rbi, bb):
+                ok, why = True, "after an unconditional peers.remove(addr)"
+        if not ok:
+            # repair path: the peer map does not contain addr
+            for (b2, ci, ct) in calls_on_field(prog, HM_LOOKUP, "GenericCloud", "peers", bodies=[cb]):
+                k = deep_root(cb, ct["args"][1])
+                if a is not None and k is not None and a["l"] == k["l"]:
+                    oc = success_edges(cb, ci)
+                    if dominated_by_edges(cb, oc.err_edges, bb):
+                        ok, why = True, "the peer map holds no entry for addr"
+        cx.check("routes-dropped-with-peer:" + cb.name, ok, site_of(cb, bb),
+                 "remove_claims(addr) is called only where the peer at addr was removed or is known to be absent%s" % ((": " + why) if why else ""))
+
+
 RULES = [
     ("C09.R1", r1_who_may_remove, "who may remove a peer: timeout sweep, CLOSE arm, crypto tick failure"),
     ("C09.R2", r2_dispatch_priority, "dispatch priority: pending handshake objects see only handshake datagrams or non-peers"),
     ("C09.R3", r3_removal_attribution, "a peer is removed in the crypto tick only for its own failure (provenance)"),
+    ("C09.R5", r5_routes_dropped_only_with_peer, "routes of an address are dropped only together with (or in the absence of) its peer"),
 ]
 
 LEVEL_TEXT = ("Static who-may-call, dominance and provenance rules on MIR: a peer is removed only at three reviewed sites (timeout, authenticated "
